@@ -129,6 +129,14 @@ def explore_dra(rng, name="d"):
             pods.append(bp)
             claims.append(claim("pc-node", "gpu", [{"driver": "gpu", "pool": "n0-g", "device": "g0", "consumed": 0}], ["b0"]))
             pcl.append({"pod": "default/b0", "claims": ["pc-node"]})
+    # an in-flight node (launched, not yet initialized): its devices are still the TEMPLATES of its one instance type
+    if rng.random() < 0.25:
+        t = rng.choice(types)
+        z = t["offerings"][0]["zone"]
+        nodes.append({"name": "nf", "stage": rng.choice(["registered", "claimonly", "appeared"]), "pool": "p0",
+                      "labels": {"zone": z, "ct": "od", "it": t["name"], "arch": "amd64", "os": "linux", "pool": "p0"},
+                      "taints": [], "startup": [], "ephemeral": False, "alloc": {"cpu": t["cpu"], "mem": t["mem"], "pods": 110},
+                      "cap": {"cpu": t["cpu"], "mem": t["mem"], "pods": 110}, "marked": False, "deleting": False, "csi": []})
     # an in-cluster pool with the SAME driver / pool / device names as the templates (ids collide, only the template flag differs)
     if rng.random() < 0.15:
         slices.append({"name": "s-gpu", "driver": "gpu", "pool": "g", "access": "all", "zone": "", "node": "", "devices": [dev("g0")], "slots": 0})
